@@ -255,6 +255,10 @@ impl CryptoResolver for SeamResolver {
     fn resolve_hash(&self, choice: &HashChoice) -> Option<Box<dyn Hash>> {
         self.inner.resolve_hash(choice)
     }
+    #[cfg(feature = "hfs")]
+    fn resolve_kem(&self, choice: &snow::params::KemChoice) -> Option<Box<dyn snow::types::Kem>> {
+        self.inner.resolve_kem(choice)
+    }
     fn resolve_cipher(&self, choice: &CipherChoice) -> Option<Box<dyn Cipher>> {
         let c = self.inner.resolve_cipher(choice)?;
         if !self.record {
